@@ -12,7 +12,8 @@ SPEC = {
             "fnv1a32/64 (both overloads), and chaining f(suffix, seed=f(prefix)) == expected f(whole) for crc32/fnv1a32/fnv1a64. "
             "Inputs: every length 0..300 x fills {00, FF, counter, PRNG} with EVERY split point 0..len; thorough adds lengths "
             "301..1100 x 4 fills; 200 (quick) / 5000 (thorough) random inputs of length 64k+d, d in -9..+1, up to exactly 1 MiB, "
-            "with <=8 sampled split points each (0, len, a block boundary, len-1, random). Chains with an EMPTY piece: the piece is "
+            "with <=8 sampled split points each (0, len, a block boundary, len-1, random). Length ladder: every size 2^k+d (k=9..20) and 3*2^k+d (k=8..18), d in -2..+2 (above 64 KiB -1..+1 in the quick tier), "
+            "plus 1 MiB+1 and 1 MiB+2, random data, all functions and sampled splits. Chains with an EMPTY piece: the piece is "
             "passed as (nullptr,0), (valid pointer,0) or empty std::string, at the start / middle / end of prefix+suffix, started from "
             "the default value and from a non-default running value (expected: zlib.crc32(x, v) / recurrence started at v), at every "
             "split of one fill per length and at 3 splits of the others. Concurrency stages: 8 threads per process (4 asan + 2 tsan "
@@ -41,6 +42,8 @@ SPEC = {
                          "chain:every-split:inner:len<=300", "chain:every-split:empty-prefix:*", "chain:every-split:empty-suffix:*",
                          "chain:sampled-split:inner:len>=64K", "random:size:=1MiB", "random:len=64k-9", "random:len=64k+1",
                          "input:enumerated:zero:*", "input:enumerated:ff:*", "input:enumerated:counter:*", "input:enumerated:prng:*",
+                         "ladder:size:4K-16K", "ladder:size:16K-64K", "ladder:size:64K-1M", "ladder:size:=1MiB", "ladder:size:>1MiB",
+                         "ladder:offset-1", "ladder:offset+0", "ladder:offset+1",
                          "chain:empty-piece:nullptr:start:*", "chain:empty-piece:nullptr:middle:running-value",
                          "chain:empty-piece:nullptr:end:running-value", "chain:empty-piece:valid-pointer:middle:*",
                          "chain:empty-piece:empty-string:start:default-start", "chain:empty-piece:empty-string:end:running-value",
